@@ -60,7 +60,7 @@ def generate(prop, seed, tier):
     g = Stream(seed, 'gen')
     api = g.choice(['semiring', 'semiring', 'patterned', 'patterned', 'multi_solve', 'multi_solve', 'multi_mv'])
     sem = g.choice(SEMS)
-    regime = g.choice(['small', 'small', 'mixed', 'big', 'inf', 'cycle'])
+    regime = g.choice(['small', 'small', 'mixed', 'big', 'inf', 'cycle', 'near-one'])
     case = {'engine': 'linsolve', 'prop': prop, 'seed': seed, 'api': api, 'semiring': sem, 'regime': regime,
             'linalg_fail': g.choice([None, None, ['all'], [1], [2]]) if sem == 'real' else None,
             'dtype': 'float64', 'axhash': g.randrange(1 << 30)}
@@ -73,6 +73,14 @@ def generate(prop, seed, tier):
             w = g.choice([1.0, 1.0, 0.5, 2.0])
             for i in range(n):
                 A[perm[i]][perm[(i + 1) % n]] = w if i == 0 else 1.0
+        if regime == 'near-one':
+            # diagonal systems with entries 1 - 2^-k (exactly representable): x = 2^k b, an exact reference near the
+            # radius of convergence
+            n = g.choice([1, 1, 2, 3])
+            ks = [g.randrange(10, 46) for _ in range(n)]
+            A = [[(1.0 - 2.0 ** -ks[i]) if i == j else 0.0 for j in range(n)] for i in range(n)]
+            case['near_one_k'] = ks
+            case['near_one_m'] = [g.randrange(6, 15) for _ in range(n)]    # Log semiring: diagonal log-weights -10^-m
         k = g.choice([None, None, 1, 2, 3])
         b = gen_matrix(g, n, k or 1, 'mixed')
         if g.random() < 0.2:
@@ -103,9 +111,17 @@ def generate(prop, seed, tier):
         if not facs:
             facs = [['atom', 2]]
         case['T'] = facs
+        f_ = 2
         case['pat'] = {'a_row': [g.randrange(4) for _ in facs], 'a_col': [g.randrange(4) for _ in facs], 'b_row': [g.randrange(4) for _ in facs],
                        'a_diag': g.random() < 0.25, 'b_extra': g.choice([0, 0, 1, 2]), 'a_expand': g.random() < 0.2,
-                       'a_rot': g.randrange(0, 3)}
+                       'a_rot': g.randrange(0, 3), 'b_shares_a_axes': g.random() < 0.25,
+                       # free-form patterns over a common pool of axes: every factor is of type 1+1 and each position picks
+                       # the left summand, the right summand or one of three shared physical axes of size 2
+                       'freeform': ([[g.randrange(5) for _ in range(f_)] for _ in range(3)] if g.random() < 0.35 else None)}
+        if case['pat']['freeform']:
+            f_ = g.choice([2, 2, 3])
+            case['T'] = [['sum', 1, 1] for _ in range(f_)]
+            case['pat']['freeform'] = [[g.randrange(5) for _ in range(f_)] for _ in range(3)]
         case['vals'] = g.randrange(1 << 30)
     else:
         nk = g.randrange(1, 5)
@@ -210,7 +226,7 @@ def sem_obj(name, dtype):
             'viterbi': lambda: S.ViterbiSemiring(dtype=dtype), 'bool': lambda: S.BoolSemiring()}[name]()
 
 
-def compare(sem, got, want, feats, what):
+def compare(sem, got, want, feats, what, tol=None):
     got = np.asarray(got)
     want = np.asarray(want)
     if got.shape != want.shape:
@@ -221,7 +237,7 @@ def compare(sem, got, want, feats, what):
         return
     same = (got == want) | (np.isnan(got) & np.isnan(want))
     fin = np.isfinite(got) & np.isfinite(want)
-    tol = 1e-6 if sem in ('real', 'log') else 1e-9
+    tol = tol or (1e-6 if sem in ('real', 'log') else 1e-9)
     close = fin & (np.abs(got - want) <= tol * np.maximum(1.0, np.maximum(np.abs(got), np.abs(want))))
     if sem == 'log':
         # a Log-semiring zero may come out as a very negative finite number only if the reference is -inf: not accepted
@@ -304,10 +320,32 @@ def execute(case):
             S = sem_obj(sem, dtype)
             if case['api'] == 'semiring':
                 A, b = case['A'], case['b']
-                want = SR.solve(sem, lift_np(sem, A), lift_np(sem, b))
+                if case.get('near_one_k') and sem in ('real', 'log'):
+                    ks = case['near_one_k']
+                    bb = np.array(b, dtype=np.float64)
+                    scale_ = np.array([2.0 ** k for k in ks])
+                    want = bb * (scale_[:, None] if bb.ndim == 2 else scale_)
+                    if sem == 'log':
+                        with np.errstate(divide='ignore'):
+                            want = np.log(want)
+                    c.inc('probe.near-one-exact')
+                elif case.get('near_one_k') and sem == 'viterbi':
+                    raise Discard('near-one regime is for real/log')
+                else:
+                    want = SR.solve(sem, lift_np(sem, A), lift_np(sem, b))
                 if want is None:
                     raise Discard('too close to the radius of convergence')
                 ta, tb = lift_t(sem, A, dtype), lift_t(sem, b, dtype)
+                if case.get('near_one_k') and sem == 'log':
+                    # generic log-weights just below 0 (not of the form log(1 - 2^-k), which would survive an exp/log round trip)
+                    ms = case['near_one_m']
+                    al = np.array([-(10.0 ** -m) for m in ms])
+                    ta = torch.full((len(ms), len(ms)), float('-inf'), dtype=dtype)
+                    for i_, v_ in enumerate(al):
+                        ta[i_, i_] = v_
+                    star = -np.log(-np.expm1(al))           # log 1/(1 - e^a), evaluated stably
+                    bl = tb.numpy()
+                    want = bl + (star[:, None] if bl.ndim == 2 else star)
                 if len(A) == 0:
                     raise Discard('empty')
                 sa, sb = tsnap(ta), tsnap(tb)
@@ -318,7 +356,8 @@ def execute(case):
                         V('raised', feats + [type(ex).__name__], f'Semiring.solve raised {type(ex).__name__}: {ex}')
                 if not same_snap(tsnap(ta), sa) or not same_snap(tsnap(tb), sb):
                     V('arguments-modified', feats + ['a' if not same_snap(tsnap(ta), sa) else 'b'], 'Semiring.solve changed an argument')
-                compare(sem, x.numpy(), want, feats, f'A={A} b={b}')
+                compare(sem, x.numpy(), want, feats + (['near-one'] if case.get('near_one_k') else []), f'A={A} b={b}',
+                        tol=1e-10 if case.get('near_one_k') else None)
                 nontrivial = len(A) >= 2 and any(A[i][j] for i in range(len(A)) for j in range(len(A)) if i != j)
                 c.inc('solve.semiring')
                 log.add('x', np.asarray(want).tolist())
@@ -327,7 +366,27 @@ def execute(case):
                 r = Stream(case['vals'], 'vals')
                 row, prow = pattern_axes(IX, T, pat['a_row'])
                 same_fac = len(T) >= 2 and all(f == T[0] for f in T) and T[0] in (['atom', 2], ['sum', 1, 1])
-                if same_fac and pat.get('a_rot'):
+                ff = pat.get('freeform')
+                if ff and all(f == ['sum', 1, 1] for f in T) and all(len(x) == len(T) for x in ff):
+                    pool = [IX.PhysicalAxis(2) for _ in range(3)]
+
+                    def mkax(choices):
+                        fs = []
+                        for ch in choices:
+                            fs.append(IX.SumAxis(0, IX.unitAxis, 1) if ch == 0 else IX.SumAxis(1, IX.unitAxis, 0) if ch == 1 else pool[ch - 2])
+                        return IX.productAxis(fs)
+
+                    def fvs(*axes):
+                        out = []
+                        for e in axes:
+                            for k_ in e.fv({}):
+                                if not any(k_ is o for o in out):
+                                    out.append(k_)
+                        return out
+                    row, col = mkax(ff[0]), mkax(ff[1])
+                    prow, pcol = fvs(row, col), []
+                    c.inc('probe.patterned.freeform')
+                elif same_fac and pat.get('a_rot'):
                     # rows X*Y*Z dense per factor, columns the same physical axes rotated: a weighted "rotation" operator
                     ks = [IX.PhysicalAxis(2) for _ in T]
                     row, prow = IX.productAxis(ks), list(ks)
@@ -349,7 +408,14 @@ def execute(case):
                 aphys = lift_t(sem, np.array(vals).reshape(ashape), dtype)
                 zero = S.from_int(0).item()
                 a = IX.PatternedTensor(aphys, tuple(apax), (row, col), zero)
-                brow, pbrow = pattern_axes(IX, T, pat['b_row'])
+                if ff and all(f == ['sum', 1, 1] for f in T) and all(len(x) == len(T) for x in ff):
+                    brow = mkax(ff[2])                 # may share some, all or none of a's axis objects
+                    pbrow = fvs(brow)
+                elif pat.get('b_shares_a_axes'):
+                    brow, pbrow = row, list(prow)      # b is written over a's own row axis objects (as in a.solve(a.mv(v)))
+                    c.inc('probe.patterned.b-shares-a-axes')
+                else:
+                    brow, pbrow = pattern_axes(IX, T, pat['b_row'])
                 extra = [IX.PhysicalAxis(r.choice([2, 3])) for _ in range(pat['b_extra'])]
                 bpax = pbrow + extra
                 bshape = [k.numel() for k in bpax]
@@ -422,7 +488,12 @@ def execute(case):
                         continue
                     seenb.add(i)
                     v = np.array(bv['vals'], dtype=np.float64).reshape(sizes[i])
-                    if bv.get('expand') and case['shapes'][i]:
+                    if bv.get('expand') and case['shapes'][i] and case['api'] == 'multi_mv' and sem != 'bool' and bv['i'] % 2 == 0:
+                        # a constant block whose default IS its value (PatternedTensor.full): not a zero block
+                        v = np.full(sizes[i], v[0] if v[0] else 1.0)
+                        t = IX.PatternedTensor.full(tuple(case['shapes'][i]), lift_t(sem, v[0], dtype).item(), dtype=dtype)
+                        c.inc('probe.multi.full-block-b')
+                    elif bv.get('expand') and case['shapes'][i]:
                         v = np.full(sizes[i], v[0])
                         t = IX.PatternedTensor(lift_t(sem, v[0], dtype).expand(case['shapes'][i]), default=zero)
                         c.inc('probe.multi.stride0-b')
